@@ -62,8 +62,9 @@ Theorem C03_in_prod_skip_safe : forall p f bit xs ys,
 Proof. exact in_prod_skip_safe. Qed.
 Print Assumptions C03_in_prod_skip_safe.
 
-(** list operations: a rule consulting ALL elements of both lists is sound for any elementwise
-    operation preserving divisibility (vector_add, vector_sub, ...) *)
+(** list operations: the rule of runtime.vector_add / vector_sub in the source (all elements of
+    both lists; gen/FlagOblig.v: modelled_runtime_Runtime_vector_add_1 / _sub_1) is sound for any
+    elementwise operation preserving divisibility *)
 Theorem C03_allof_rule_sound_elementwise : forall f (g : Z -> Z -> Z) xs ys,
   (forall u v, (2 ^ f | u) -> (2 ^ f | v) -> (2 ^ f | g u v)) ->
   Forall (sound f) xs -> Forall (sound f) ys ->
@@ -72,8 +73,9 @@ Theorem C03_allof_rule_sound_elementwise : forall f (g : Z -> Z -> Z) xs ys,
 Proof. exact allof_rule_sound_elementwise. Qed.
 Print Assumptions C03_allof_rule_sound_elementwise.
 
-(** ... whereas the first-element rule found at the sites failing `rule_consults_all` is not
-    (F-C03): witness [2, 3*2^-16] on SecFxp(32,16) through an elementwise addition *)
+(** ... whereas the abstract first-element rule shape (any site failing `rule_consults_all`; before
+    repair 9bcd50d the list operations, now only runtime._distribute) is not: witness
+    [2, 3*2^-16] on SecFxp(32,16) through an elementwise addition *)
 Theorem C03_first_rule_refuted : exists f xs,
   Forall (sound f) xs /\
   eval (envl (map flg xs) (map flg xs)) (And (First "x") (First "y")) = true /\
